@@ -304,3 +304,92 @@ def all_names(db):
                 if key in r:
                     out.add(r[key])
     return sorted(out)
+
+
+# ---------------------------------------------------------------------------
+# independent reader of the .in format (used by the oracles to look inside what
+# the real library wrote)
+# ---------------------------------------------------------------------------
+
+class _Rd:
+    def __init__(self, data):
+        self.d, self.i = data, 0
+
+    def ws(self):
+        while self.i < len(self.d) and self.d[self.i] in b" \t\n\r\v\f":
+            self.i += 1
+
+    def int(self):
+        self.ws()
+        j = self.i
+        if j < len(self.d) and self.d[j] in b"+-":
+            j += 1
+        k = j
+        while k < len(self.d) and 48 <= self.d[k] <= 57:
+            k += 1
+        if k == j:
+            raise ValueError("int expected at %d" % self.i)
+        v = int(self.d[self.i:k])
+        self.i = k
+        return v
+
+    def str(self):
+        n = self.int()
+        self.i += 1
+        if n <= 0:
+            return b""
+        s = self.d[self.i:self.i + n]
+        if len(s) < n:
+            raise ValueError("short string")
+        self.i += n
+        return s
+
+    def cstr(self):
+        n = self.int()
+        if n == 0:
+            return b""
+        self.i += 1
+        s = self.d[self.i:self.i + n]
+        self.i += n
+        return s
+
+
+def dec_record(lay, kind, rd, minor=3):
+    rec = {}
+    for f in lay.inp[kind]:
+        k, name = f[0], f[1]
+        if k == "int":
+            rec[name] = rd.int()
+        elif k == "intSince":
+            rec[name] = rd.int() if minor >= f[2] else 0
+        elif k == "str":
+            rec[name] = rd.str()
+        elif k == "strs":
+            rec[name] = [rd.str() for _ in range(rd.int())]
+        elif k == "ints":
+            rec[name] = [rd.int() for _ in range(rd.int())]
+        elif k == "recs":
+            out = []
+            for _ in range(rd.int()):
+                s = {}
+                for a in f[2]:
+                    s[a[1]] = rd.int() if a[0] == "int" else rd.str()
+                out.append(s)
+            rec[name] = out
+        elif k == "intIf":
+            rec[name] = rd.int() if rec[f[2]] & f[3] else f[4]
+    return rec
+
+
+def dec_file(lay, data):
+    rd = _Rd(data)
+    db = {"fileId": rd.int(), "major": rd.int(), "minor": rd.int()}
+    db["lib"], db["hash"], db["mod"] = rd.cstr(), rd.cstr(), rd.cstr()
+    for k in SECTION_ORDER:
+        n = rd.int()
+        ents = []
+        for _ in range(n):
+            i = rd.int()
+            ents.append((i, dec_record(lay, k, rd, db["minor"])))
+        db[k] = ents
+    return db
